@@ -14,6 +14,17 @@ def U(node) -> str:
     return ast.unparse(node)
 
 
+def S(x) -> str:
+    """Squashed text: unparse, then drop whitespace and parentheses, so that
+    `(a, b) = f(x)` and `a, b = f(x)` or re-indented blocks compare equal."""
+    t = x if isinstance(x, str) else ast.unparse(x)
+    return "".join(ch for ch in t if ch not in " \n\t()")
+
+
+def has(node, fragment: str) -> bool:
+    return S(fragment) in S(node)
+
+
 def dotted(node) -> Optional[str]:
     if isinstance(node, ast.Name):
         return node.id
@@ -44,15 +55,15 @@ _SCOPES = (ast.FunctionDef, ast.AsyncFunctionDef, ast.ClassDef, ast.Lambda)
 def walk_shallow(node, include_lambda=True) -> Iterable[ast.AST]:
     """ast.walk that does not descend into nested def/class (and, optionally,
     lambda) bodies.  The root itself may be a function."""
-    todo = list(ast.iter_child_nodes(node))
-    while todo:
-        n = todo.pop(0)
+    todo = list(ast.iter_child_nodes(node))[::-1]
+    while todo:  # depth-first, pre-order == source order
+        n = todo.pop()
         yield n
         if isinstance(n, (ast.FunctionDef, ast.AsyncFunctionDef, ast.ClassDef)):
             continue
         if isinstance(n, ast.Lambda) and not include_lambda:
             continue
-        todo.extend(ast.iter_child_nodes(n))
+        todo.extend(list(ast.iter_child_nodes(n))[::-1])
 
 
 def calls_in(node, shallow=True) -> Iterable[ast.Call]:
